@@ -76,12 +76,15 @@ func NewBackend(kind, dir string, sids []quickfix.SessionID, repo string) (*Back
 		db.Close()
 		st := quickfix.NewSettings()
 		st.GlobalSettings().Set(config.SQLStoreDriver, "sqlite3")
-		st.GlobalSettings().Set(config.SQLStoreDataSourceName, dbp)
+		st.GlobalSettings().Set(config.SQLStoreDataSourceName, "file:"+dbp+"?_busy_timeout=20000")
 		for _, id := range sids {
 			ss := quickfix.NewSessionSettings()
 			ss.Set(config.BeginString, id.BeginString)
 			ss.Set(config.SenderCompID, id.SenderCompID)
 			ss.Set(config.TargetCompID, id.TargetCompID)
+			if id.Qualifier != "" {
+				ss.Set(config.SessionQualifier, id.Qualifier)
+			}
 			if _, err := st.AddSession(ss); err != nil {
 				return nil, err
 			}
